@@ -2,7 +2,7 @@
    decode_encode_msg in proofs/ProtoMsgProofs.v) + the AST-level lookup plookup; the reference
    implementation's own report of the message is cross-checked against the model in 701. *)
 From Coq Require Import ZArith List Bool.
-From DG Require Import CaseFormat ProtoWireRef ProtoMsg ProtoCase ProtoGeneric.
+From DG Require Import CaseFormat ProtoWireRef ProtoMsg ProtoCase ProtoGeneric ProtoGenericAlg.
 Import ListNotations.
 Local Open Scope Z_scope.
 
@@ -154,13 +154,205 @@ Section Queries.
     end.
 End Queries.
 
+(* does the observation equal what getByPath as coded does? *)
+Definition obs_matches_alg (g : gout) (st ty : Z) (raw : list Z) : bool :=
+  match g with
+  | GFoundA t r => (st =? 0) && (ty =? t) && bytes_eqb raw r
+  | GNotFoundA => st =? 1
+  | GErrA => (st =? 1) || (st =? 2)
+  | GPanicA => st =? 3
+  | GUnmodelled => false
+  end.
+
+(* does the path take index 0 of an unpacked list (string / bytes / message elements)? *)
+Fixpoint path_idx0_unpacked (S : schema) (lbl : flabel) (t : ftype) (v : pval) (p : list pstep) {struct p} : bool :=
+  match p with
+  | [] => false
+  | s :: p' =>
+    match lbl, v with
+    | LSingular, VMsg fs =>
+      match t with
+      | TMsg name =>
+        match find_msg S name with
+        | Some md =>
+          match step_field md s with
+          | Some fd => match assoc_z (fd_num fd) fs with
+                       | Some x => path_idx0_unpacked S (fd_label fd) (fd_type fd) x p'
+                       | None => false
+                       end
+          | None => false
+          end
+        | None => false
+        end
+      | _ => false
+      end
+    | LRepeated _, VList _ vs =>
+      match s with
+      | PIndex i =>
+        ((i =? 0) && negb (type_numeric t)) ||
+        match nth_error vs (Z.to_nat i) with Some x => path_idx0_unpacked S LSingular t x p' | None => false end
+      | _ => false
+      end
+    | LMap kk, VMap kvs =>
+      match s with
+      | PStrKey k => match assoc_key (KStr k) kvs with Some x => path_idx0_unpacked S LSingular t x p' | None => false end
+      | PIntKey i => match find (fun kx => key_matches i (fst kx)) kvs with
+                     | Some kx => path_idx0_unpacked S LSingular t (snd kx) p' | None => false end
+      | _ => false
+      end
+    | _, _ => false
+    end
+  end.
+
+Fixpoint is_prefix (a b : list Z) : bool :=
+  match a, b with
+  | [], _ => true
+  | x :: a', y :: b' => (x =? y) && is_prefix a' b'
+  | _, _ => false
+  end.
+
+Definition is_index_step (s : option pstep) : bool := match s with Some (PIndex _) => true | _ => false end.
+
+(* known findings of getByPath (APIs 1-3): selector on the case; the caller has already established
+   that the observation equals the as-coded model's output *)
+Definition gbp_finding (sc : schema) (root : list Z) (m : pmsg) (p : list pstep) (r : lres) (raw : list Z) : option Z :=
+  let oob := match r with LNotFound true => is_index_step (last_step p) | _ => false end in
+  let absent_key := match r, last_step p with
+                    | LNotFound _, Some (PStrKey _) | LNotFound _, Some (PIntKey _) => true
+                    | _, _ => false end in
+  if oob then Some 701
+  else if absent_key then Some 704      (* the scan for an absent key runs past the end of the enclosing message *)
+  else
+    if path_idx0_unpacked sc LSingular (TMsg root) (VMsg m) p then Some 702
+    else match r with
+         | LFound (LRepeated _) t num v =>
+           if type_numeric t && negb (wt_of_kind (kind_of_type t) =? 0) then Some 703
+           else if negb (type_numeric t) && is_prefix (node_raw (LRepeated false) num v) raw then Some 704
+           else None
+         | LFound (LMap kk) t num v => if is_prefix (node_raw (LMap kk) num v) raw then Some 704 else None
+         | _ => None
+         end.
+
+(* ---- structural selectors for the other APIs *)
+Fixpoint pval_any (f : pval -> bool) (v : pval) {struct v} : bool :=
+  f v ||
+  match v with
+  | VMsg fs => existsb (fun nv => pval_any f (snd nv)) fs
+  | VList _ vs => existsb (pval_any f) vs
+  | VMap kvs => existsb (fun kx => pval_any f (snd kx)) kvs
+  | _ => false
+  end.
+Definition is_float (v : pval) : bool := match v with VScalar k _ => k =? 2 | _ => false end.
+Definition is_packed_fixed (v : pval) : bool :=
+  match v with VList true (VScalar k _ :: _) => negb (wt_of_kind k =? 0) | _ => false end.
+Definition is_oos_map (v : pval) : bool :=
+  match v with VMap ((KInt k _, _) :: _) => negb (key_in_subset k) | _ => false end.
+Definition is_empty_msg (v : pval) : bool := match v with VMsg [] => true | _ => false end.
+Definition has_direct (f : pval -> bool) (v : pval) : bool :=
+  match v with VMsg fs => existsb (fun nv => f (snd nv)) fs | _ => false end.
+
+(* does f hold at a position the path visits (after at least one step)? *)
+Fixpoint path_visits (f : pval -> bool) (S : schema) (lbl : flabel) (t : ftype) (v : pval) (p : list pstep) {struct p} : bool :=
+  match p with
+  | [] => false
+  | s :: p' =>
+    let k (lbl' : flabel) (t' : ftype) (x : pval) := f x || path_visits f S lbl' t' x p' in
+    match lbl, v with
+    | LSingular, VMsg fs =>
+      match t with
+      | TMsg name =>
+        match find_msg S name with
+        | Some md =>
+          match step_field md s with
+          | Some fd => match assoc_z (fd_num fd) fs with Some x => k (fd_label fd) (fd_type fd) x | None => false end
+          | None => false
+          end
+        | None => false
+        end
+      | _ => false
+      end
+    | LRepeated _, VList _ vs =>
+      match s with
+      | PIndex i => match nth_error vs (Z.to_nat i) with Some x => k LSingular t x | None => false end
+      | _ => false
+      end
+    | LMap kk, VMap kvs =>
+      match s with
+      | PStrKey key => match assoc_key (KStr key) kvs with Some x => k LSingular t x | None => false end
+      | PIntKey i => match find (fun kx => key_matches i (fst kx)) kvs with Some kx => k LSingular t (snd kx) | None => false end
+      | _ => false
+      end
+    | _, _ => false
+    end
+  end.
+
+Definition strict_prefix (a b : list Z) : bool := is_prefix a b && negb (length a =? length b)%nat.
+
+(* the parent of the last step is located correctly by getByPath as coded (prefix path) *)
+Definition parent_of (p : list pstep) : list pstep := removelast p.
+Definition parent_ok (sc : schema) (root : list Z) (m : pmsg) (bs : list Z) (p : list pstep) : option lres :=
+  match parent_of p with
+  | [] => Some (plookup_root sc root m [])
+  | pre =>
+    match plookup_root sc root m pre, gbp sc root bs pre with
+    | LFound lbl t num v, GFoundA ty raw =>
+      if (ty =? node_type lbl t) && bytes_eqb raw (node_raw lbl num v) then Some (LFound lbl t num v) else None
+    | _, _ => None
+    end
+  end.
+
 Definition judge_702 (sc : schema) (root : list Z) (m : pmsg) (bs : list Z) (api : Z)
            (p : list pstep) (st ty : Z) (raw : list Z) : verdict :=
   if st =? 9 then VSkip else
   let r := plookup_root sc root m p in
-  if obs_ok api p r st ty raw then VOk
-  else if path_out_of_subset sc LSingular (TMsg root) (VMsg m) p then VDrift 1
-  else VBad 2 (exp_fields r).
+  let isgbp := (api =? 1) || (api =? 2) || (api =? 3) in
+  let alg := if isgbp then gbp sc root bs p else GUnmodelled in
+  let alg_ok := obs_matches_alg alg st ty raw in
+  let bad := VBad 2 (exp_fields r) in
+  let rootv := VMsg m in
+  if obs_ok api p r st ty raw then
+    (if isgbp && negb alg_ok then VDrift 2 else VOk)       (* spec holds; the as-coded model needs re-alignment *)
+  else if path_out_of_subset sc LSingular (TMsg root) rootv p then VDrift 1
+  else if isgbp then
+    (if alg_ok then match gbp_finding sc root m p r raw with Some id => VKnown id | None => VBad 5 (exp_fields r) end
+     else bad)
+  else if api =? 4 then
+    (* single-step APIs: Field / FieldByName / Index / GetByStr / GetByInt *)
+    let oob := match r with LNotFound true => is_index_step (last_step p) | _ => false end in
+    if oob && ((st =? 0) || (st =? 3)) then VKnown 705
+    else if path_visits is_packed_fixed sc LSingular (TMsg root) rootv p then VKnown 703
+    else match r with
+         | LFound (LRepeated q) t num v =>
+           if (st =? 0) && (ty =? T_LIST) && negb (type_numeric t) && strict_prefix (node_raw (LRepeated q) num v) raw then VKnown 704 else bad
+         | LFound (LMap kk) t num v =>
+           if (st =? 0) && (ty =? T_MAP) && strict_prefix (node_raw (LMap kk) num v) raw then VKnown 704 else bad
+         | _ => bad
+         end
+  else if (api =? 5) || (api =? 9) || (api =? 6) then
+    match parent_ok sc root m bs p with
+    | None => VSkip                       (* the parent itself is not located correctly: reported under APIs 1-3 *)
+    | Some (LFound plbl pt pnum pv) =>
+      if api =? 6 then
+        (* PathNode.Load(recurse=false) on the parent node *)
+        match plbl, pv, parent_of p with
+        | LSingular, VMsg _, _ :: _ => VKnown 708      (* nested message node: length prefix parsed as a tag *)
+        | _, _, _ => bad
+        end
+      else
+        (* GetMany *)
+        if has_direct is_packed_fixed pv then VKnown 703        (* the over-read derails the iteration over the parent's fields *)
+        else if (api =? 9) && (match last_step p with Some (PStrKey _) | Some (PIntKey _) => true | _ => false end)
+                && ((st =? 1) || (st =? 2)) then VKnown 707
+        else if has_direct is_oos_map pv then VDrift 1
+        else bad
+    | Some _ => VSkip
+    end
+  else if api =? 7 then
+    (* PathNode.Load(recurse=true) on the root *)
+    if pval_any is_oos_map rootv then VDrift 1
+    else if existsb (fun nv => pval_any is_empty_msg (snd nv)) m && (st =? 2) then VKnown 706
+    else bad
+  else bad.
 
 (* fields: schema, bytes, api, #queries, { path, status, type, raw } *)
 Definition check_702 (fs : list field) : verdict :=
@@ -273,24 +465,27 @@ Definition gval_fields (g : gval) : list field :=
   | GNil => [FZ 0] | GOther => [FZ 99]
   end.
 
-Definition judge_703 (sc : schema) (root : list Z) (m : pmsg) (p : list pstep) (cast st : Z) (got : option gval) : verdict :=
+Definition judge_703 (sc : schema) (root : list Z) (m : pmsg) (bs : list Z) (p : list pstep) (cast st : Z) (got : option gval) : verdict :=
   match plookup_root sc root m p with
   | LFound lbl t num v =>
+    (* the value is obtained with GetByPath: when that lookup itself deviates it is reported by 702 *)
+    if negb (is_nil p) && negb (obs_matches_alg (gbp sc root bs p) 0 (node_type lbl t) (node_raw lbl num v)) then VSkip else
     let exp := if cast =? 8 then Some (to_gval v) else cast_expected cast v in
     match exp with
     | None => VSkip
     | Some e =>
-      match got with
-      | Some g => if (st =? 0) && gval_eqv e g then VOk
-                  else if path_out_of_subset sc LSingular (TMsg root) (VMsg m) p then VDrift 1
-                  else VBad 3 (gval_fields e)
-      | None => VBad 4 (gval_fields e)
-      end
+      let ok := match got with Some g => (st =? 0) && gval_eqv e g | None => false end in
+      if ok then VOk
+      else if path_out_of_subset sc LSingular (TMsg root) (VMsg m) p || pval_any is_oos_map v then VDrift 1
+      else if (cast =? 8) && pval_any is_float v && negb (st =? 0) && negb (st =? 3) then VKnown 709   (* Interface() has no FLOAT case *)
+      else if (cast =? 8) && pval_any is_packed_fixed v && negb (is_packed_fixed v)
+           then VKnown 703                                                     (* SkipAllElements inside Interface() of a message *)
+      else VBad (match got with Some _ => 3 | None => 4 end) (FZ st :: gval_fields e)
     end
   | _ => VSkip
   end.
 
-Fixpoint run_casts (sc : schema) (root : list Z) (m : pmsg) (n : nat) (idx : Z) (fs : list field)
+Fixpoint run_casts (sc : schema) (root : list Z) (m : pmsg) (bs : list Z) (n : nat) (idx : Z) (fs : list field)
          (acc : verdict) (bad : list field) : verdict :=
   match n with
   | O => match fs with
@@ -306,9 +501,9 @@ Fixpoint run_casts (sc : schema) (root : list Z) (m : pmsg) (n : nat) (idx : Z) 
         else match parse_cast_value cast r with Some (g, r') => Some (Some g, r') | None => None end in
       match parsed with
       | Some (got, r') =>
-        match judge_703 sc root m p cast st got with
-        | VBad c d => run_casts sc root m n' (idx + 1) r' acc (bad ++ FZ idx :: FZ c :: d)
-        | v => run_casts sc root m n' (idx + 1) r' (vworse acc v) bad
+        match judge_703 sc root m bs p cast st got with
+        | VBad c d => run_casts sc root m bs n' (idx + 1) r' acc (bad ++ FZ idx :: FZ c :: d)
+        | v => run_casts sc root m bs n' (idx + 1) r' (vworse acc v) bad
         end
       | None => VBad 98 [FZ idx]
       end
@@ -323,7 +518,7 @@ Definition check_703 (fs : list field) : verdict :=
     if negb (count_ok nq) then VBad 99 [] else
     match decode_top sc root bs with
     | None => VSkip
-    | Some m => run_casts sc root m (Z.to_nat nq) 0 r VOk []
+    | Some m => run_casts sc root m bs (Z.to_nat nq) 0 r VOk []
     end
   | _ => VBad 99 []
   end.
